@@ -1,10 +1,10 @@
 #!/bin/bash
 # Confirms a seeded change in a scratch worktree:
-#   tools/seeded_verify.sh <worktree> <variant-dir> <crate> <demo-file.rs> [dest-dir-relative-to-crate (default tests)]
+#   tools/seeded_verify.sh <worktree> <variant-dir> <crate> <demo-file.rs> [dest-dir-relative-to-crate (default tests)] [demo-setup.diff (demo plumbing, e.g. a dev-dependency; applied for the demo runs only)]
 # 1. unchanged tree: demo passes   2. patched tree: whole existing suite passes, demo fails.
 # Leaves the worktree at HEAD. Prints RESULT lines; exit 0 iff all three hold.
 set -u
-WT="$1"; V="$2"; CRATE="$3"; DEMO="$4"; DEST="${5:-tests}"
+WT="$1"; V="$2"; CRATE="$3"; DEMO="$4"; DEST="${5:-tests}"; SETUP="${6:-}"
 cd "$WT" || exit 2
 export CARGO_NET_OFFLINE=true
 CR=$(find crates bin -maxdepth 1 -name "$CRATE" | head -1)
@@ -13,14 +13,17 @@ git checkout -q -- .
 T="${DEMO%.rs}"
 mkdir -p "$CR/$DEST"; created=0; [ "$(ls -A $CR/$DEST | wc -l)" = 0 ] && created=1
 cp "seeded/$V/$DEMO" "$CR/$DEST/$DEMO"
+[ -n "$SETUP" ] && git apply "seeded/$V/$SETUP"
 cargo test -q -p "$CRATE" --offline --test "$T" > "seeded/$V/verify-clean.log" 2>&1; rc_clean=$?
 rm -f "$CR/$DEST/$DEMO"
+[ -n "$SETUP" ] && git checkout -q -- .
 git apply "seeded/$V/patch.diff" || { echo "RESULT patch does not apply"; exit 2; }
 cargo nextest run --workspace --no-fail-fast --offline > "seeded/$V/verify-suite.log" 2>&1; rc_suite=$?
 # the two proptests the baseline lists as flaky (their generator overflows i128) do not count
 bad=$(grep -E '^\s+FAIL ' "seeded/$V/verify-suite.log" | grep -v -E 'composite_contains_some_(naked|composite)' | sort -u | wc -l)
 [ $rc_suite != 0 ] && [ "$bad" = 0 ] && grep -q 'tests run' "seeded/$V/verify-suite.log" && rc_suite=0
 cp "seeded/$V/$DEMO" "$CR/$DEST/$DEMO"
+[ -n "$SETUP" ] && git apply "seeded/$V/$SETUP"
 cargo test -q -p "$CRATE" --offline --test "$T" > "seeded/$V/verify-patched.log" 2>&1; rc_patched=$?
 rm -f "$CR/$DEST/$DEMO"; [ $created = 1 ] && rmdir "$CR/$DEST" 2>/dev/null
 git checkout -q -- .
